@@ -1479,11 +1479,16 @@ class Bits:
         Raises ValueError if the delimiter is empty.
 
         """
+        # The default is taken from the option as it is now, not when the generator is first advanced.
+        bytealigned_: bool = bitstring.options.bytealigned if bytealigned is None else bytealigned
+        return self._split(delimiter, start, end, count, bytealigned_)
+
+    def _split(self, delimiter: BitsType, start: Optional[int], end: Optional[int],
+               count: Optional[int], bytealigned_: bool) -> Iterable[Bits]:
         delimiter = Bits._create_from_bitstype(delimiter)
         if len(delimiter) == 0:
             raise ValueError("split delimiter cannot be empty.")
         start, end = self._validate_slice(start, end)
-        bytealigned_: bool = bitstring.options.bytealigned if bytealigned is None else bytealigned
         if count is not None and count < 0:
             raise ValueError("Cannot split - count must be >= 0.")
         if count == 0:
